@@ -72,8 +72,8 @@ def _apply(v: Variant, root: str) -> Optional[str]:
                     with open(p, "w") as fh:
                         fh.write(ast.unparse(t) + "\n")
         return None
-    if v.func in ("return-via-local", "negate-ifs"):
-        fn = return_via_local if v.func == "return-via-local" else negate_ifs
+    if v.func in ("return-via-local", "negate-ifs", "split-chains"):
+        fn = {"return-via-local": return_via_local, "negate-ifs": negate_ifs, "split-chains": split_chains}[v.func]
         for dirpath, _, files in os.walk(os.path.join(root, "gpytorch")):
             for f_ in files:
                 if f_.endswith(".py"):
@@ -246,6 +246,36 @@ def return_via_local(tree: ast.AST):
     T().visit(tree)
 
 
+def split_chains(tree: ast.AST):
+    """Behaviour-preserving refactoring: in `x = <recv>.g(args)` / `return <recv>.g(args)` where <recv> is itself a call, the
+    receiver is bound to a fresh local first (`_c1 = <recv>; x = _c1.g(args)`); the receiver is evaluated before the arguments
+    either way.  Only statements directly in function bodies (not in class bodies, lambdas, comprehensions)."""
+    counter = [0]
+
+    def rewrite(stmts):
+        out = []
+        for st in stmts:
+            for fld in ("body", "orelse", "finalbody"):
+                v = getattr(st, fld, None)
+                if isinstance(v, list) and v and isinstance(v[0], ast.stmt) and not isinstance(st, (ast.FunctionDef, ast.AsyncFunctionDef, ast.ClassDef)):
+                    setattr(st, fld, rewrite(v))
+            for h in getattr(st, "handlers", []) or []:
+                h.body = rewrite(h.body)
+            val = st.value if isinstance(st, (ast.Assign, ast.Return)) else None
+            if isinstance(val, ast.Call) and isinstance(val.func, ast.Attribute) and isinstance(val.func.value, ast.Call) \
+                    and not (isinstance(val.func.value.func, ast.Name) and val.func.value.func.id == "super"):
+                counter[0] += 1
+                nm = "_c%d" % counter[0]
+                pre = ast.Assign(targets=[ast.Name(id=nm, ctx=ast.Store())], value=val.func.value, lineno=st.lineno, col_offset=st.col_offset)
+                val.func.value = ast.Name(id=nm, ctx=ast.Load())
+                out.append(pre)
+            out.append(st)
+        return out
+
+    for fn in [n for n in ast.walk(tree) if isinstance(n, (ast.FunctionDef, ast.AsyncFunctionDef))]:
+        fn.body = rewrite(fn.body)
+
+
 def negate_ifs(tree: ast.AST):
     """Behaviour-preserving refactoring: `if c: A else: B` (B non-empty, no elif chain) becomes `if not c: B else: A`."""
     for n in ast.walk(tree):
@@ -255,6 +285,7 @@ def negate_ifs(tree: ast.AST):
 
 
 GENERIC = [
+    Variant("benign: receivers of chained calls are bound to a local first", "", func="split-chains", expect="silent"),
     Variant("benign: every `return <expr>` goes through a local variable", "", func="return-via-local", expect="silent"),
     Variant("benign: every two-armed if has its condition negated and its arms exchanged", "", func="negate-ifs", expect="silent"),
     Variant("benign: every local variable of every function renamed (ast-level refactoring)", "", func="rename-locals", expect="silent"),
